@@ -44,6 +44,10 @@ def run(chk, tier):
     chk.rule("R-FLAGS", "flag words of the three shmem entry points (ZERO)")
     ns, nw = flags.run(chk, P, "C19", effects=E)
     chk.floor("R-FLAGS", "entry points", ns, 3)
+    chk.rule("R-INITFINI", "adopt's (and every other function's) error paths release the process-wide component reference only if they hold one (see C17)")
+    import refcount
+    nrf = refcount.run(chk, P)
+    chk.floor("R-INITFINI", "release sites of the component reference count", nrf, 5)
     chk.decided += ["every structure-modifying public call on an adopted topology is refused before it can touch the mapping (all public entry points with a topology parameter)",
                     "hwloc_topology_allow operates on adopter-private sets", "mismatching header fields -> EINVAL, unavailable range -> EBUSY (structure)",
                     "get_length suffices for write (same traversal, same rounding, header room; everything on the duplication path goes through the tma)",
